@@ -45,7 +45,7 @@ AR = [
 
 ASSUMPTIONS = [
     "default resolvers only; custom resolver callbacks are outside the property",
-    "abstract alphabet of 47 citation kinds (real objects extracted once from snippets, shallow-copied per position)",
+    "abstract alphabet of 53 citation kinds (real objects extracted once from snippets, shallow-copied per position)",
     "BFS canonical state = (set of full-citation classes seen, placeholder-page count capped at 2, class of last resolution); "
     "soundness of this abstraction is checked by comparing all one-step futures of two representative histories per state",
 ]
@@ -53,7 +53,7 @@ ASSUMPTIONS = [
 
 def rule(pid):
     return (
-        "seq: every sequence of length <= L over the 47-symbol alphabet (and <= L' over the 20 most interacting symbols) "
+        "seq: every sequence of length <= L over the 53-symbol alphabet (and <= L' over the 20 most interacting symbols) "
         "through the real resolve_citations; bfs: explicit-state search over canonical resolver states to fix-point, every "
         "transition executes the real resolver on representative+[event]; docs: lists extracted by get_citations from all "
         "concatenations of <= k ambiguous-document fragments (all prefixes for C08); pumped: every head of <= 3 core symbols followed by "
@@ -62,7 +62,7 @@ def rule(pid):
     )
 
 
-BFS_DROP_QUICK = ("fullU", "fullC3", "fullA0", "fullA3", "fullA4", "lawR1", "lawR2", "jour2", "lawU1", "lawU2", "fullM1", "fullM2", "fullM3", "idEdgeIn", "fullA5", "fullBrown", "supraBros", "fullM4", "fullMac", "supraMacArthur")  # structurally covered by fullP/fullQ and fullC in the sequence parts
+BFS_DROP_QUICK = ("fullU", "fullC3", "fullA0", "fullA3", "fullA4", "lawR1", "lawR2", "jour2", "lawU1", "lawU2", "fullM1", "fullM2", "fullM3", "idEdgeIn", "fullA5", "fullBrown", "supraBros", "fullM4", "fullMac", "supraMacArthur", "fullM5", "fullFoo2", "supraFooVol", "fullDoeS", "fullDze", "refDze")  # structurally covered by fullP/fullQ and fullC in the sequence parts
 G = {}
 
 
